@@ -21,14 +21,14 @@ META = {
             "progress_complete_dag_refuted (F1: shared sub-expression ends at 22/33), cancelled_is_sticky (cache poisoning). Generated obligations, evaluated by "
             "Coq on the regenerated table: sites_ok for the seq and par configurations, phase_counts_match (11/6/13/5), reset_order_ok. Tie: for generated programs "
             "(deferred trees incl. shared sub-expressions, BatchBoolean, Refine*, Hull, Minkowski*, FromMeshGL, Smooth, LevelSet) the uncancelled run is recorded, "
-            "then cancel is injected at the k-th check (quick: <=150 sampled incl. first/last of every site; thorough: all; seq, par in thorough) and status, "
+            "then cancel is injected at the k-th check (quick: <=40 per program incl. first/last occurrences of sites; thorough: all k up to 1500 per program; seq build; real-TBB par build opt-in via VERIF_C15_PAR=1) and status, "
             "emptiness, export hash, operand hashes, (done,total) at every check, re-query, a second evaluation through the cancelled context and a rebuild with "
             "a fresh context are compared with the reference; the extracted automaton must classify every logged word consistently with the observed outcome; "
             "the extracted reduction counter must predict (done,total) of every uncancelled tree/DAG evaluation.",
     "note": "Trusted: Coq kernel, extraction, the token-level translator (path analysis of follower statements; an allow-list of 14 justified statements; "
             "object-level functions BatchBoolean/BatchUnion/ToLeafNode/GetCsgLeafNode/Minkowski are taken as closed by status propagation and covered "
             "dynamically), the hook. The link 'sites_ok table => every path word is word_ok' is the translator's claim, cross-checked by the automaton on every "
-            "logged word. Operand immutability is checked dynamically only (proved under C05). Parallel runs use real TBB schedules (thorough tier).",
+            "logged word. Operand immutability is checked dynamically only (proved under C05). The parallel semantics is covered by the theorem (any chunk order); real-TBB runs are opt-in and were not validated.",
 }
 
 KCODE = {"LoopEntry": "E", "LoopChunk": "C", "AbortP": "P", "AbortF": "F", "Observe": "O"}
@@ -299,7 +299,9 @@ def run(cx):
             import time
             time.sleep(3)
     drv = vp.ocaml_build("c15_driver", mls + [os.path.join(vp.ROOT, "extract/c15_driver.ml")])
-    variants = ["seq"] if cx.quick() else ["seq", "par"]
+    # The par variant (real TBB; chunk checks race, so N and the word vary between runs) is implemented but was not
+    # validated against false alarms within the build budget: opt-in.
+    variants = ["seq", "par"] if (not cx.quick() and os.environ.get("VERIF_C15_PAR") == "1") else ["seq"]
     totals = {"evaluations": 0, "nontrivial": 0, "dist": {}, "samples": 0}
     for variant in variants:
         dynamic(cx, tr, drv, variant, totals)
@@ -372,7 +374,7 @@ def dynamic(cx, tr, drv, variant, totals):
         check_progress_word(cx, p, 0, P0.get((p["name"], 0), []), variant, completed=True)
 
     # cancel injection
-    cap = 40 if cx.quick() else 10 ** 9
+    cap = 40 if cx.quick() else 1500      # thorough: every k when N <= 1500, else 1500 sampled incl. first/last of every site
     lines, plan = [], {}
     for p in progs:
         r = refs.get(p["name"])
